@@ -71,7 +71,7 @@ VEC = {'f1': 'vector::float1', 'f2': 'vector::float2', 'f3': 'vector::float3', '
 SA = {'symbolic_alloc': True}
 
 INFO['C01'] = {
-    'bounds': 'row-major: N<=3 quick / 4 thorough, coordinate scalars size_t/unsigned/int, extents UNBOUNDED subject to '
+    'bounds': 'row-major: N<=3 (+ two N=4 kernels) quick / 4 thorough, coordinate scalars size_t/unsigned/int, extents UNBOUNDED subject to '
               'prod(s)*sizeof(cell) < 2^63 (INT mode); Morton (pdep and both portable variants): N<=3 quick / 4 thorough, '
               'every extent <= 2^floor((63-log2 cell)/N); Hilbert: N=2, extents <= 2^6 quick / 2^8 thorough, non-square and '
               'non-power-of-two included; API end-to-end (construct, fill, write at symbolic coordinate, read at symbolic '
@@ -103,6 +103,19 @@ def layout_units(tier, which):
                 U += unit(f'c01_rowmajor_{N}_{C}_{v}', 'c01_layouts.cpp', f'rowmajor_h<{N},{C},{VEC[v]}>()', 'INT',
                           flavours=('rel', 'san') if (C == 'size_t' or th) else ('rel',), sites=[1, 2, 3, 4, 5], cfg=SA,
                           diff=(N == 2))
+    if not th:
+        # the largest dimensionality in the quick tier too (a few kernels)
+        U += unit('c01_rowmajor_4_size_t_f4', 'c01_layouts.cpp', f'rowmajor_h<4,size_t,{VEC["f4"]}>()', 'INT', sites=[1, 2, 3, 4, 5], cfg=SA)
+        U += unit('c01_rowmajor_4_unsigned_d2', 'c01_layouts.cpp', f'rowmajor_h<4,unsigned,{VEC["d2"]}>()', 'INT', sites=[1, 2, 3, 4, 5], cfg=SA)
+        if which == 'C01':
+            U += unit('c01_morton_pdep_4_size_t_f4', 'c01_layouts.cpp', f'morton_h<4,size_t,{VEC["f4"]},true>()', 'BITS', extra=['-mbmi2'],
+                      sites=[1, 2, 3, 5], cfg={'loop_cap': 80}, weight=10)
+            U += unit('c01_morton_port_4_unsigned_d4', 'c01_layouts.cpp', f'morton_h<4,unsigned,{VEC["d4"]},false>()', 'BITS',
+                      sites=[1, 2, 3, 5], cfg={'loop_cap': 80}, weight=30)
+            U += unit('c01_api_rowmajor_4_size_t_f4', 'c01_layouts.cpp', f'api_h<0,4,size_t,{VEC["f4"]},2>()', 'BITS', sites=[1], weight=60,
+                      cfg={'sym_cells_cap': 1024})
+            U += unit('c01_api_mortonport_4_size_t_d1', 'c01_layouts.cpp', f'api_h<2,4,size_t,{VEC["d1"]},2>()', 'BITS', sites=[1], weight=60,
+                      cfg={'sym_cells_cap': 1024})
     if which == 'C01':
         for N in Ns:
             U += unit(f'c01_rowmajor_ctor_{N}', 'c01_layouts.cpp', f'rowmajor_ctor_h<{N},{VEC[vs[N % 4]]}>()', 'INT',
@@ -489,13 +502,14 @@ def units_C05(tier, seed):
     for n, v, bnd in ((1, 'f2', 3), (2, 'f3', 3), (3, 'd1', 2)) + (((2, 'd4', 4), (4, 'f1', 2)) if th else ()):
         U += unit(f'c05_cuda_h2d_{n}_{v}', 'c05_cuda.cpp', f'h2d_h<{n},{VEC[v]},{bnd}>()', sites=[1, 2, 3, 4, 5],
                   flavours=('rel', 'dbg') if n == 2 else ('rel',), diff=(n == 2), weight=bnd ** n * 5)
-    for i1, l1, i2, l2 in ((0, 0, 1, 2), (1, 0, 0, 1), (1, 2, 1, 0), (0, 1, 0, 0), (1, 0, 1, 3), (0, 3, 1, 0)):
+    for i1, l1, i2, l2 in ((0, 0, 1, 2), (1, 0, 0, 1), (1, 2, 1, 0), (0, 1, 0, 0), (1, 0, 1, 3), (0, 3, 1, 0),
+                           (0, 0, 1, 0), (1, 0, 0, 0), (0, 2, 1, 2), (1, 3, 0, 3), (1, 0, 1, 0)):
         for n in ((2,) if not th else (1, 2, 3)):
             if 3 in (l1, l2) and n != 2:
                 continue
             ex = ['-mbmi2'] if 1 in (l1, l2) else []
             U += unit(f'c05_stack_{i1}{LAYNAME[l1]}_{i2}{LAYNAME[l2]}_{n}', H, f'stack_h<{i1},{l1},{i2},{l2},{n},{VEC["f2"]},2>()',
-                      extra=ex, sites=[1, 2, 3], diff=(l1 == 0 and n == 2), weight=40)
+                      extra=ex, sites=[1, 2, 3, 4, 5], diff=(l1 == 0 and n == 2), weight=40)
     return U
 
 
@@ -528,7 +542,7 @@ INFO['C08'] = {
     'bounds': 'for every dump of the C06 state space: (1) every proper prefix (symbolic length t < |D|, every byte offset), '
               '(2) every header/footer/tag/width word replaced by any other 32-bit value, (3) ordered pairs of incompatible stacks, '
               '(4) a stream that fails from the n-th read on for every n below the number of reads: an exception is raised; no normal '
-              'return, abort, memory VC failure, decision on uninitialised data or loop-bound hit; rel and dbg flavours',
+              'return, leak of partially built storage, abort, memory VC failure, decision on uninitialised data or hang (a loop past 3000 iterations on these <= 300-byte inputs is a HANG finding, replayed natively under a 20 s limit); rel and dbg flavours',
     'outside': 'streams that throw from read() themselves (exceptions mask set); allocation failure',
     'cuts': 'as C06; bytes a short read does not deliver stay uninitialised in the destination (undef-tagged)',
     'assumptions': ['width word of an EMPTY array switched to the other legal width is a valid file (C07), not an altered-word violation'],
@@ -590,13 +604,13 @@ def units_C08(tier, seed):
         if k in (2,) :
             pass
         fl = ('rel', 'dbg') if (k in (3, 4, 5, 20, 1) or th) else ('rel',)
-        U += unit(f'c08_trunc_{k}', 'c06_io.cpp', f'trunc_h<{k},{b}>()', sites=[1], flavours=fl, diff=(k in (3, 21)), weight=20,
-                  cfg={'max_paths': 20000}, timeout=1800)
-        U += unit(f'c08_word_{k}', 'c06_io.cpp', f'word_h<{k},{b if th else 1}>()', sites=[1], flavours=fl, diff=(k in (3,)), weight=20,
-                  cfg={'max_paths': 20000}, timeout=1800)
+        U += unit(f'c08_trunc_{k}', 'c06_io.cpp', f'trunc_h<{k},{b}>()', sites=[1, 2], flavours=fl, diff=(k in (3, 21)), weight=20,
+                  cfg={'max_paths': 20000, 'hang_cap': 3000}, timeout=1800)
+        U += unit(f'c08_word_{k}', 'c06_io.cpp', f'word_h<{k},{b if th else 1}>()', sites=[1, 2], flavours=fl, diff=(k in (3,)), weight=20,
+                  cfg={'max_paths': 20000, 'hang_cap': 3000}, timeout=1800)
         if k in (0, 3, 4, 5, 6, 12, 20, 21, 22) or th:
-            U += unit(f'c08_failat_{k}', 'c06_io.cpp', f'failat_h<{k},{b if th else 1}>()', sites=[1], flavours=fl, diff=(k == 3), weight=20,
-                      cfg={'max_paths': 20000}, timeout=1800)
+            U += unit(f'c08_failat_{k}', 'c06_io.cpp', f'failat_h<{k},{b if th else 1}>()', sites=[1, 2], flavours=fl, diff=(k == 3), weight=20,
+                      cfg={'max_paths': 20000, 'hang_cap': 3000}, timeout=1800)
     for a, bb in ((3, 40), (40, 3), (3, 41), (41, 3), (3, 42), (42, 3), (0, 1), (1, 0), (2, 1), (3, 4), (4, 5), (5, 3), (7, 33), (33, 7), (6, 20), (10, 0), (0, 3)):
         U += unit(f'c08_pair_{a}_{bb}', 'c06_io.cpp', f'pair_h<{a},{bb},1>()', sites=[1], flavours=('rel', 'dbg') if a == 3 else ('rel',),
                   diff=(a == 3 and bb == 40))
@@ -625,9 +639,9 @@ def units_C12(tier, seed):
     U = []
     H = 'c12_history.cpp'
     ns = 3 if th else 2
-    opn = ['copyc', 'movec', 'copya', 'movea', 'write', 'destroy', 'convert', 'dumpload']
+    opn = ['copyc', 'movec', 'copya', 'movea', 'write', 'destroy', 'convert', 'dumpload', 'loadfail']
     for t in (0, 1, 2):
-        for op in range(8):
+        for op in range(9):
             if not th and t == 1 and op in (4, 5):
                 continue
             fl = ('rel', 'san') if (op in (2, 3) or th) else ('rel',)
